@@ -14,7 +14,9 @@ def units(tier):
 
 def runner_tasks(tier):
     return [{"module": "c15", "task": "sample", "kind": "bounded", "clause": "samples x rest lists x targets"},
-            {"module": "stateful", "task": "C15", "name": "stateful", "kind": "bounded", "clause": "decay_time on a recalculated Sample; weakly activated samples"}]
+            {"module": "c14", "task": "table_columns", "kind": "eval", "clause": "activation.dat: every row's half-life in hours (the column decay_time uses) is its listed half-life; loaded records are the rows"},
+            {"module": "stateful", "task": "C15", "name": "stateful", "kind": "bounded", "clause": "decay_time on a recalculated Sample; weakly activated samples"},
+            {"module": "independence", "task": "observations", "name": "independence", "kind": "bounded", "arg": {"tags": ["C15"]}, "clause": "fixed observations give the same value as the first use of the library in a fresh interpreter, in a warmed-up interpreter (twice) and in reverse order, and have their documented value", "timeout": 900}]
 
 
 REPLAY = {"module": "c15", "task": "replay"}
